@@ -224,7 +224,7 @@ pub fn run_replace_table_ops(ac: &AhoCorasick, p: &Plan, rep: &[Vec<u8>]) -> Val
 }
 
 /// StreamFindIter: reads and yielded items in order
-pub fn run_find(ac: &AhoCorasick, p: &Plan) -> Value {
+pub fn run_find(ac: &AhoCorasick, p: &Plan, repoll: bool) -> Value {
     let log: Log = Rc::new(RefCell::new(vec![]));
     aho_corasick::verif::set_buffer_capacity(if p.cap == 0 { None } else { Some(p.cap) });
     let rdr = ScriptedReader {
@@ -244,7 +244,11 @@ pub fn run_find(ac: &AhoCorasick, p: &Plan) -> Value {
                 Ok(m) => l2.borrow_mut().push(json!(["y", m.pattern().as_usize(), m.start(), m.end()])),
                 Err(_) => {
                     l2.borrow_mut().push(json!(["yerr"]));
-                    return Ok("err");
+                    if !repoll {
+                        return Ok("err");
+                    }
+                    // nothing stops a caller from polling again after an error: the
+                    // failure was transient, the iterator must simply carry on
                 }
             }
         }
@@ -325,7 +329,7 @@ pub fn run(out_prefix: &str, shards: usize, family: &str, seed: u64, scale: usiz
                             v["c"] = json!(cl);
                             out.put(shard, &v);
                             st.events += 1;
-                            let mut f = run_find(&ac, &base);
+                            let mut f = run_find(&ac, &base, true);
                             f["c"] = json!(cl);
                             out.put(shard, &f);
                             st.events += 1;
@@ -351,7 +355,7 @@ pub fn run(out_prefix: &str, shards: usize, family: &str, seed: u64, scale: usiz
                                     let mut v = run_replace(&ac, &p);
                                     v["c"] = json!(cl);
                                     out.put(shard, &v);
-                                    let mut f = run_find(&ac, &p);
+                                    let mut f = run_find(&ac, &p, true);
                                     f["c"] = json!(cl);
                                     out.put(shard, &f);
                                     st.events += 2;
@@ -435,7 +439,7 @@ pub fn run(out_prefix: &str, shards: usize, family: &str, seed: u64, scale: usiz
                     let nemit = v["ops"].as_array().unwrap().iter().filter(|o| o[0] == "w" || o[0] == "m").count();
                     v["c"] = json!(cl);
                     out.put(shard, &v);
-                    let mut f = run_find(&ac, &base);
+                    let mut f = run_find(&ac, &base, true);
                     f["c"] = json!(cl);
                     out.put(shard, &f);
                     let rep: Vec<Vec<u8>> = (0..pats.len())
@@ -451,7 +455,7 @@ pub fn run(out_prefix: &str, shards: usize, family: &str, seed: u64, scale: usiz
                             let mut v = run_replace(&ac, &p);
                             v["c"] = json!(cl);
                             out.put(shard, &v);
-                            let mut f = run_find(&ac, &p);
+                            let mut f = run_find(&ac, &p, true);
                             f["c"] = json!(cl);
                             out.put(shard, &f);
                             st.events += 2;
@@ -512,7 +516,7 @@ pub fn run(out_prefix: &str, shards: usize, family: &str, seed: u64, scale: usiz
                 out.put(shard, &r);
                 st.events += 1;
                 if p.wfail.is_none() {
-                    let mut f = run_find(ac, &p);
+                    let mut f = run_find(ac, &p, false);
                     f["c"] = json!(cl);
                     f["expect"] = json!({"end": v["end"], "matches": v["matches"], "out": v["out"]});
                     out.put(shard, &f);
